@@ -6,7 +6,7 @@
    whether that was assigned by this incarnation or by an earlier one.
    Wiring (main.go lists nodes, constructs, starts informers, runs): gen/C03_current.v from translator facts.
    Outside the theorem's universe (monitored): tombstones, relists, nodes marked deleting, pre-set pod CIDRs. *)
-From NIPAM Require Import Sys Alloc_proofs Sys_proofs Hist_proofs Hist2_proofs Hist3_proofs.
+From NIPAM Require Import Sys Alloc_proofs Sys_proofs Hist_proofs Hist2_proofs Hist3_proofs Hist4_proofs.
 Open Scope N_scope.
 
 (* a crash keeps the API objects and forgets everything else *)
@@ -45,3 +45,12 @@ Theorem C03_assignments_survive_any_number_of_restarts :
   forall n1 c1 n2 c2, holder w n1 c1 -> holder w n2 c2 -> n1 <> n2 -> overlapb c1 c2 = false.
 Proof. exact no_overlap_across_restarts. Qed.
 Print Assumptions C03_assignments_survive_any_number_of_restarts.
+
+(* the same with the whole informer contract (tombstones, relists), operations judged in the state they are applied to,
+   pod CIDRs that exist before an incarnation starts watching included (Hist4_proofs.v) *)
+Theorem C03_assignments_survive_restarts_tombstones_and_relists :
+  forall po lab ops, valid4 po lab init_world ops ->
+  let w := run po lab init_world ops in
+  forall n1 c1 n2 c2, holder w n1 c1 -> holder w n2 c2 -> n1 <> n2 -> overlapb c1 c2 = false.
+Proof. exact no_overlap_with_tombstones_and_relists. Qed.
+Print Assumptions C03_assignments_survive_restarts_tombstones_and_relists.
